@@ -203,6 +203,13 @@ class UserErr(Exception):
         self.n = n
 
 
+class UserBaseErr(BaseException):
+    """user code may raise any BaseException (KeyboardInterrupt, SystemExit, CancelledError, …)"""
+
+    def __init__(self, n):
+        self.n = n
+
+
 def exec_body(md, toks):
     for t in toks:
         if t[0] == "en":
@@ -210,6 +217,12 @@ def exec_body(md, toks):
         elif t[0] == "dis":
             md.disable(list(t[1]), t[2])
         elif t[0] == "raise":
+            if t[1] % 3 == 0:
+                raise UserBaseErr(t[1])
+            if t[1] % 3 == 1:
+                k = KeyboardInterrupt()
+                k.n = t[1]
+                raise k
             raise UserErr(t[1])
         elif t[0] == "push":
             ruler = {"core": md.core.ruler, "block": md.block.ruler, "inline": md.inline.ruler,
@@ -252,8 +265,8 @@ def run_reset(ctx: Ctx, drv: Driver, n: int):
             with md.reset_rules():
                 exec_body(md, body)
             out = "u"
-        except UserErr as e:
-            out = f"e:UserRaised{e.n}"
+        except (UserErr, UserBaseErr, KeyboardInterrupt) as e:
+            out = f"e:UserRaised{getattr(e, 'n', -1)}"
         except Exception as e:
             out = "e:" + type(e).__name__
         after = md.get_active_rules()
